@@ -86,23 +86,35 @@ let verdict case impl =
       | _ -> failwith "bad request" in
     (match impl with
      | ["panic"] -> "viol panic"
+     | ["nopick"] -> "ok not-applicable: pick() yields no target under the first liveness (replayed case)"
      | [pl] ->
        (match List.map fst (parse_tgts pl) with
         | [] -> "diff two-reads empty plan although pick() yields a target"
         | h :: rest ->
           let pk1 = pick_matches dcf rackf g kss en1 co1 pol rq (Some h) in
           let pm2 = plan_matches dcf rackf g kss en2 co2 pol rq in
+          let g1 = int_of_nat (group_of dcf rackf g kss en1 co1 pol rq h)
+          and g2 = int_of_nat (group_of dcf rackf g kss en2 co2 pol rq h) in
           let rec inserts pre post = (List.rev_append pre (h :: post)) ::
                                      (match post with [] -> [] | x :: r -> inserts (x :: pre) r) in
-          (* C05_two_reads_safe: the rest is the later fallback plan, with the picked target removed
-             if it was in it *)
-          let structure = pk1 && (pm2 rest || (not (mem h rest) && List.exists pm2 (inserts [] rest))) in
+          (* C05_two_reads_safe + C05_fallback_structure: the rest is the later fallback plan minus
+             the target EQUAL to the picked one.  The later plan's target for node h carries a shard
+             iff h is then in a replica group (g2 < 3), the picked target iff g1 < 3:
+             - h not allowed any more (g2 = 8): the rest is the later plan as it is, without h;
+             - same annotation: h's target was filtered out - the rest is the later plan minus h;
+             - different annotation: the filter does not apply - h reappears in the rest. *)
+          let structure = pk1 &&
+            (if g2 >= 8 then not (mem h rest) && pm2 rest
+             else if (g1 < 3) = (g2 < 3) then not (mem h rest) && List.exists pm2 (inserts [] rest)
+             else mem h rest && pm2 rest) in
           if structure then "ok"
           else begin
-            (* what must survive a liveness change: enabled when chosen, permitted, the rest duplicate-free *)
+            (* what must survive a liveness change: enabled when chosen, permitted, the rest duplicate-free,
+               and the picked target itself not repeated when nothing changed for that node *)
             let perm n = permitted dcf g pol rq n in
-            let safe = en1 h && perm h && List.for_all (fun n -> en2 n && perm n) rest && nodupb rest in
-            (if safe then "diff" else "viol") ^ Printf.sprintf " two-reads pick=%b plan=%s" pk1 (string_of_nlist (h :: rest))
+            let safe = en1 h && perm h && List.for_all (fun n -> en2 n && perm n) rest && nodupb rest
+                       && not (mem h rest && g2 < 8 && (g1 < 3) = (g2 < 3)) in
+            (if safe then "diff" else "viol") ^ Printf.sprintf " two-reads pick=%b g1=%d g2=%d plan=%s" pk1 g1 g2 (string_of_nlist (h :: rest))
           end)
      | _ -> "error bad-impl-output")
   | ["P"; nodes_s; ring_s; ks_s; flags_s; pol_s; req_s] ->
